@@ -484,6 +484,9 @@ class IntervalTier(textgrid_tier.TextgridTier):
         else:
             interval = entry
 
+        # Labels are stored without surrounding whitespace (see the constructor)
+        interval = Interval(interval.start, interval.end, interval.label.strip())
+
         matchList = self.crop(
             interval.start, interval.end, CropCollision.LAX, False
         )._entries
